@@ -80,6 +80,9 @@ void doExecute(RunState& rs, IWorld& w, const HistOp& op, bool simulate, const s
     Snapshot before;
     before.take(w.view());
     const size_t firstCall = ctx.calls.size();
+    // dead-stack scribble (plain flavour, when the run's policy enables it): whatever a library routine reads from its
+    // own frame without having written it is then deterministic garbage instead of a plausible leftover value
+    ctx.sim.scribbleStack();
     if (op.op == "top") {
         w.topExecute(op.flags);
         // the top tree reads level-1 multipoles and adds to level-1 locals (L2L into the real tree); nothing else may change
@@ -439,6 +442,7 @@ void recipeRebuild(RunState& rs) {
         } else if (op.op == "rebuild") {
             setStage("rebuild");
             auto before = rhsByIndex(w->view());
+            ctx.sim.scribbleStack();
             if (!w->rebuild()) { ctx.addViolation("rebuild:not-instantiable", sc.ordering, "TbfTree::rebuild() does not instantiate for the " + sc.ordering + " ordering"); rs.drain("run"); break; }
             ctx.view = &w->view();
             setStage("rebuild-oracle");
